@@ -320,6 +320,7 @@ template <class Ad> void compare_grid(const char* name, uint64_t seed, int npair
     int ra[9], rb[9]; int k = (int)(g() % (N + 1));            // a and b tie in the first k slots (possibly via -0/+0), differ (maybe) after
     for (int i = 0; i < N; i++) { ra[i] = (int)(g() % 8); if (i < k) { rb[i] = ra[i]; if ((ra[i] == 3 || ra[i] == 4) && (g() & 1)) rb[i] = 7 - ra[i]; } else rb[i] = (int)(g() % 8); }
     if (k < N && (g() % 3)) { rb[k] = ra[k] + ((g() & 1) ? 1 : -1); if (rb[k] < 0) rb[k] = 1; if (rb[k] > 7) rb[k] = 6; }
+    if (t % 4 == 1) { int j = (int)(g() % N); for (int i = 0; i < N; i++) rb[i] = ra[i]; rb[j] = (ra[j] + 1 + (int)(g() % 6)) % 8; }   // differ in exactly one slot (any slot)
     Q a = mk(ra), b = mk(rb);
     int lt = a < b, le = a <= b, gt = a > b, ge = a >= b, eq = a == b, ne = a != b; int heq = std::hash<Q>()(a) == std::hash<Q>()(b);
     // reference: lexicographic on order ranks
